@@ -1,6 +1,7 @@
 //! C10 --unique.
 
 use crate::engine::*;
+use crate::rjson::parse_one;
 use crate::runner::*;
 use crate::univ::*;
 use proptest::collection::vec;
@@ -345,14 +346,77 @@ impl Check for C10Wide {
     }
 }
 
+// ---------------------------------------------------------------- computed values
+
+/// Rows whose selected value is computed: the same number reached by different routes (3 as
+/// itself, as (ceil 2.5), as (+ 2.5 0.5), as (/ 6 2), as (parse "3.0")) is one value for `=`
+/// and must be one value for --unique, whatever representation the route left behind.
+#[derive(Clone, Debug, Serialize, Deserialize)]
+pub struct Case10C {
+    pub expr: u8,
+    pub inputs: Vec<u8>,
+    pub second_column: bool,
+}
+
+const COMPUTED: &[&str] = &["(ceil .)", "(floor .)", "(round .)", "(+ . 0.5)", "(- . 0.5)", "(* . 2)", "(/ . 0.5)", "(abs .)", "(parse (stringify .))", "(+ . 0)", "(sum (push [] . 0.5 0.5))", "(% . 4)", "(size (range (floor .)))", "(get (push [] .) 0)"];
+const COMPUTED_INPUTS: &[&str] = &["0", "1", "2", "3", "4", "6", "0.5", "1.5", "2.5", "3.5", "2.2", "2.8", "3.0", "1e0", "25e-1", "5", "7.5", "8"];
+
+pub struct C10Computed;
+impl Check for C10Computed {
+    type Case = Case10C;
+    fn name(&self) -> &'static str {
+        "C10.unique_computed"
+    }
+    fn cases(&self, tier: Tier) -> u64 {
+        tier.pick(8_000, 200_000)
+    }
+    fn strategy(&self, _t: Tier) -> BoxedStrategy<Case10C> {
+        (0..COMPUTED.len() as u8, vec(0..COMPUTED_INPUTS.len() as u8, 0..24), any::<bool>()).prop_map(|(expr, inputs, second_column)| Case10C { expr, inputs, second_column }).boxed()
+    }
+    fn check(&self, c: &Case10C) -> CaseResult {
+        let input: String = c.inputs.iter().map(|i| format!("{}\n", COMPUTED_INPUTS[*i as usize % COMPUTED_INPUTS.len()])).collect();
+        let mut args = vec![format!("--select={} = v", COMPUTED[c.expr as usize % COMPUTED.len()])];
+        if c.second_column {
+            args.push("--select=(string? .) = s".into());
+        }
+        args.push("--style=consise".into());
+        let plain = run(&args, input.as_bytes());
+        args.push("--unique".into());
+        let uniq = run(&args, input.as_bytes());
+        if !plain.res.is_ok() || !uniq.res.is_ok() {
+            return CaseResult::Fail(format!("jawk failed: {} / {} (args {:?})", plain.res.short(), uniq.res.short(), args));
+        }
+        // equal rows = equal printed value (numbers by value)
+        let key = |l: &[u8]| -> String {
+            match parse_one(l) {
+                Ok(v) => match v.get("v") {
+                    Some(x) if x.is_num() => format!("n{:?}", x.as_f64().unwrap()),
+                    Some(x) => x.to_json(),
+                    None => "absent".into(),
+                },
+                Err(_) => String::from_utf8_lossy(l).to_string(),
+            }
+        };
+        let all = lines(&plain.stdout);
+        let mut seen = std::collections::HashSet::new();
+        let exp: Vec<&[u8]> = all.iter().copied().filter(|l| seen.insert(key(l))).collect();
+        let got = lines(&uniq.stdout);
+        if got != exp {
+            return CaseResult::Fail(format!("--unique over computed values keeps {} rows, {} distinct values were printed without it: {} vs {} (args {:?}, input {})", got.len(), exp.len(), esc_trunc(&uniq.stdout, 200), esc_trunc(&exp.join(&b"\n"[..]), 200), args, esc_trunc(input.as_bytes(), 120)));
+        }
+        CaseResult::Pass(Info::new(exp.len() >= 2 && exp.len() < all.len()).class_if(c.second_column, "two_columns").obs(json!({"rows": all.len(), "kept": exp.len()})))
+    }
+}
+
 pub fn run_all(ctx: &mut Ctx) {
-    ctx.rule = "C10.equality: jawk's = matrix over the whole universe must be an equivalence and agree with structural/numeric equality (exhaustive over pairs). C10.unique: 0..40 rows whose 0..3 selected values come from a per-case pool of 1..6 universe values (numerically equal spellings, escape variants, nested equal collections) or are absent; oracle: output with --unique = first-occurrence filter of the output without it under jawk's own = relation per selected value (absent only equals absent). non-trivial = at least one removed duplicate whose text differs from its first occurrence and >= 2 kept rows. C10.unique_wide: rows whose 0..3 selected values are large near-duplicates (ten families: 65- and 241-character strings, objects with the same members nested differently, 31-element arrays, 13-member objects, depth-8 nesting, each with three members that differ only at the very end, and two spellings per member), selections that share a title, JSON or csv output, optionally --sort-by on a member that is not selected (the survivors are the first occurrences in arrival order, then sorted), 0..40 explicit rows or 1000..5000 (70000 thorough) rows derived from a seed; oracle: first-occurrence filter of the plain output under equality by (family, member) per column; non-trivial = something was removed and two kept rows differ only in the tail of a value".into();
+    ctx.rule = "C10.equality: jawk's = matrix over the whole universe must be an equivalence and agree with structural/numeric equality (exhaustive over pairs). C10.unique: 0..40 rows whose 0..3 selected values come from a per-case pool of 1..6 universe values (numerically equal spellings, escape variants, nested equal collections) or are absent; oracle: output with --unique = first-occurrence filter of the output without it under jawk's own = relation per selected value (absent only equals absent). non-trivial = at least one removed duplicate whose text differs from its first occurrence and >= 2 kept rows. C10.unique_wide: rows whose 0..3 selected values are large near-duplicates (ten families: 65- and 241-character strings, objects with the same members nested differently, 31-element arrays, 13-member objects, depth-8 nesting, each with three members that differ only at the very end, and two spellings per member), selections that share a title, JSON or csv output, optionally --sort-by on a member that is not selected (the survivors are the first occurrences in arrival order, then sorted), 0..40 explicit rows or 1000..5000 (70000 thorough) rows derived from a seed; oracle: first-occurrence filter of the plain output under equality by (family, member) per column; non-trivial = something was removed and two kept rows differ only in the tail of a value. C10.unique_computed: 0..23 numbers from a pool of 18 (whole and fractional, several spellings) through one of 14 arithmetic / conversion expressions, so that one number is reached by several routes; oracle: first-occurrence filter of the plain output by printed value".into();
     ctx.assumptions = vec!["universe excludes -0 and member-order permutations (quantifier)".into()];
     run_equality(ctx);
     C10Unique.run(ctx);
     C10Wide.run(ctx);
+    C10Computed.run(ctx);
 }
 
 pub fn checks() -> Vec<Box<dyn DynCheck>> {
-    vec![Box::new(C10Unique), Box::new(C10Wide)]
+    vec![Box::new(C10Unique), Box::new(C10Wide), Box::new(C10Computed)]
 }
